@@ -1,8 +1,16 @@
-(* Source tie for cnvlib/coverage.py region_depth_count.filter_read: the predicate
-   regenerated from the Python source on every run (Gen/FnCoverage.v) is the model's
-   `counted`, with pysam's flag properties read off the SAM flag bits
-   (is_unmapped 0x4, is_secondary 0x100, is_qcfail 0x200, is_duplicate 0x400). *)
-From CNV Require Import Base.Prelude Gen.FnCoverage Model.Coverage.
+(* Source ties for cnvlib/coverage.py region_depth_count (Gen/FnCoverage.v is regenerated from
+   the Python source on every run).
+
+   * filter_read: the translated predicate is the model's `counted`, with pysam's flag
+     properties read off the SAM flag bits (is_unmapped 0x4, is_secondary 0x100,
+     is_qcfail 0x200, is_duplicate 0x400).
+   * the scalar tail, translated as a fragment of the function (spec: tools/fnspecs/coverage.py):
+       depth = bases / (end - start) if end > start else 0
+       row[4] = math.log(depth, 2) if depth else NULL_LOG2_COVERAGE
+     fn_region_tail bases start end log2_depth NULL = (depth, row[4]) is the model's
+     count_depth and count_log2 (the logarithm being the oracle, NULL_LOG2_COVERAGE the
+     generated constant of cnvlib/params.py). *)
+From CNV Require Import Base.Prelude Gen.Params Gen.CoverageDefaults Gen.FnCoverage Model.Coverage.
 
 Local Open Scope Z_scope.
 
@@ -18,4 +26,67 @@ Proof.
            (Z.land (r_flag r) 4 =? 0), (Z.land (r_flag r) 512 =? 0); cbn [negb orb andb];
     try reflexivity;
     destruct (r_mapq r <? cut) eqn:E1, (cut <=? r_mapq r) eqn:E2; cbn [negb orb andb]; try reflexivity; lia.
+Qed.
+
+(* the depth the code computes: first component of the translated tail (it does not depend
+   on the logarithm's value or on the null constant) *)
+Definition fn_region_depth (bases lo hi : Z) : Q := fst (fn_region_tail bases lo hi 0 0).
+
+Lemma fn_region_tail_fst bases lo hi l n : fst (fn_region_tail bases lo hi l n) = fn_region_depth bases lo hi.
+Proof. reflexivity. Qed.
+
+(* depth = bases / (end - start) if end > start else 0 *)
+Lemma fn_region_depth_eq (bases lo hi : Z) :
+  (fn_region_depth bases lo hi == count_depth bases lo hi)%Q.
+Proof.
+  unfold fn_region_depth, fn_region_tail, count_depth, ratio, COUNT_ZERO_DEPTH. cbn [fst].
+  destruct (lo <? hi).
+  - now rewrite Qred_correct.
+  - reflexivity.
+Qed.
+
+(* the same value as an exact fraction: bases / (end - start) for a proper bin *)
+Lemma fn_region_depth_value (bases lo hi : Z) :
+  lo < hi -> (fn_region_depth bases lo hi == inject_Z bases / inject_Z (hi - lo))%Q.
+Proof.
+  intros H. unfold fn_region_depth, fn_region_tail. cbn [fst].
+  replace (lo <? hi) with true by (symmetry; apply Z.ltb_lt; exact H). reflexivity.
+Qed.
+
+(* the row's log2: math.log(depth, 2) if depth else NULL_LOG2_COVERAGE, on the code's own depth *)
+Lemma fn_region_log2_eq (log2o : Q -> Q) (bases lo hi : Z) :
+  let d := fn_region_depth bases lo hi in
+  snd (fn_region_tail bases lo hi (log2o d) NULL_LOG2_COVERAGE) = count_log2 log2o d.
+Proof.
+  cbv zeta. unfold fn_region_tail, count_log2, fn_region_depth, fn_region_tail. cbn [fst snd].
+  match goal with |- context [Qeq_bool ?d 0] => destruct (Qeq_bool d 0) end; reflexivity.
+Qed.
+
+Lemma fn_region_log2_clause : forall (log2o : Q -> Q) bases lo hi,
+  let d := fn_region_depth bases lo hi in
+  snd (fn_region_tail bases lo hi (log2o d) NULL_LOG2_COVERAGE) = count_log2 log2o d /\
+  fst (fn_region_tail bases lo hi (log2o d) NULL_LOG2_COVERAGE) = d.
+Proof. intros log2o bases lo hi. split; [exact (fn_region_log2_eq log2o bases lo hi)|reflexivity]. Qed.
+
+(* the guard sees the same zero whether or not the fraction is reduced *)
+Lemma fn_region_guard_eq (bases lo hi : Z) :
+  Qeq_bool (fn_region_depth bases lo hi) 0 = Qeq_bool (count_depth bases lo hi) 0.
+Proof.
+  pose proof (fn_region_depth_eq bases lo hi) as H.
+  destruct (Qeq_bool (fn_region_depth bases lo hi) 0) eqn:E1, (Qeq_bool (count_depth bases lo hi) 0) eqn:E2;
+    try reflexivity.
+  - apply Qeq_bool_iff in E1. rewrite H in E1. apply Qeq_bool_iff in E1. congruence.
+  - apply Qeq_bool_iff in E2. rewrite <- H in E2. apply Qeq_bool_iff in E2. congruence.
+Qed.
+
+Lemma fn_region_depth_clause : forall bases lo hi,
+  (fn_region_depth bases lo hi == count_depth bases lo hi)%Q /\
+  (lo < hi -> (fn_region_depth bases lo hi == inject_Z bases / inject_Z (hi - lo))%Q) /\
+  (hi <= lo -> fn_region_depth bases lo hi = 0%Q) /\
+  Qeq_bool (fn_region_depth bases lo hi) 0 = Qeq_bool (count_depth bases lo hi) 0.
+Proof.
+  intros bases lo hi. split; [apply fn_region_depth_eq|]. split; [apply fn_region_depth_value|].
+  split; [|apply fn_region_guard_eq].
+  intros H. unfold fn_region_depth, fn_region_tail. cbn [fst].
+  replace (lo <? hi) with false by (symmetry; apply Z.ltb_ge; exact H). reflexivity.
 Qed.
